@@ -150,6 +150,86 @@ func checkC20(w *World) {
 	flow("Entity", "entities", "xsel.ReadXml")
 	flow("Strict", "unstrict", "xsel.ReadXml")
 
+	// bindings are taken verbatim from the command line
+	docRule(P, "R20.6", "F", "the -s/-v/-e option parser stores the text before '=' as the key and the text after it as the value, unmodified (no trimming or case folding); the -m serialiser names every start tag, end tag and attribute with the node's own Space() and Local(), unconditionally.")
+	for _, fn := range all {
+		if fn.Name() != "Set" || len(fn.Params) != 2 {
+			continue
+		}
+		verbatim := false
+		modifies := ""
+		allInstrs(fn, func(in ssa.Instruction) {
+			switch x := in.(type) {
+			case *ssa.MapUpdate:
+				isElem := func(v ssa.Value, k int64) bool {
+					ld, ok := v.(*ssa.UnOp)
+					if !ok {
+						return false
+					}
+					ia, ok := ld.X.(*ssa.IndexAddr)
+					if !ok {
+						return false
+					}
+					kk, ok := constInt(ia.Index)
+					if !ok || kk != k {
+						return false
+					}
+					c, ok := ia.X.(*ssa.Call)
+					return ok && staticCallee(c) != nil && strings.HasPrefix(funcFullName(staticCallee(c)), "strings.Split")
+				}
+				if isElem(x.Key, 0) && isElem(x.Value, 1) {
+					verbatim = true
+				}
+			case *ssa.Call:
+				if sc := staticCallee(x); sc != nil {
+					n := funcFullName(sc)
+					if strings.HasPrefix(n, "strings.Trim") || strings.HasPrefix(n, "strings.To") || n == "strings.Fields" {
+						modifies = n
+					}
+				}
+			}
+		})
+		w.check(P, "R20.6", "option values are bound verbatim", fn.Pos(), verbatim && modifies == "", fmt.Sprintf("map[part before '='] = part after '=' unchanged: %v; modifying call: %s", verbatim, orNone(modifies)))
+	}
+	nNames := 0
+	for _, fn := range all {
+		groups := map[ssa.Value]map[string]string{}
+		var order []ssa.Value
+		allInstrs(fn, func(in ssa.Instruction) {
+			st, ok := in.(*ssa.Store)
+			if !ok {
+				return
+			}
+			fa, ok := st.Addr.(*ssa.FieldAddr)
+			if !ok {
+				return
+			}
+			pt, ok := fa.X.Type().Underlying().(*types.Pointer)
+			if !ok {
+				return
+			}
+			n, ok := types.Unalias(pt.Elem()).(*types.Named)
+			if !ok || n.Obj().Name() != "Name" || n.Obj().Pkg() == nil || n.Obj().Pkg().Path() != "encoding/xml" {
+				return
+			}
+			if groups[fa.X] == nil {
+				groups[fa.X] = map[string]string{}
+				order = append(order, fa.X)
+			}
+			if c, ok := st.Val.(*ssa.Call); ok && c.Call.IsInvoke() {
+				groups[fa.X][fieldName(fa)] = c.Call.Method.Name()
+			} else {
+				groups[fa.X][fieldName(fa)] = describe(st.Val)
+			}
+		})
+		for _, base := range order {
+			got := groups[base]
+			nNames++
+			w.check(P, "R20.6", "xml.Name built in "+fn.Name(), base.Pos(), got["Space"] == "Space" && got["Local"] == "Local", fmt.Sprintf("Space <- %s, Local <- %s (must be the node's Space() and Local() on every path)", got["Space"], got["Local"]))
+		}
+	}
+	w.floor(P, "R20.6", 3)
+
 	// R20.2 file types
 	valid := map[string]bool{}
 	allInstrs(init, func(in ssa.Instruction) {
@@ -227,9 +307,9 @@ func checkC20(w *World) {
 
 	// R20.3 prefix gating
 	type writerInfo struct {
-		fn     *ssa.Function
-		gates  map[string]bool // truth assignment key -> prefix emitted
-		undec  string
+		fn    *ssa.Function
+		gates map[string]bool // truth assignment key -> prefix emitted
+		undec string
 	}
 	var writers []writerInfo
 	for _, fn := range all {
